@@ -27,6 +27,9 @@ CHECKS = {
  "C08": ("DESIGN.md 5.8",
   "Theorems (unbounded): for any number of connections, any requests, any global interleaving: every handler call on connection i is preceded in the schedule by connection i's own AUTH whose decoded credentials are exactly (no user, configured password) (C08_gate, invariant over the interleaved system); a step of one connection leaves every other connection's state untouched; AUTH with any other credentials (arbitrary byte strings, missing, null) => error and authorization unchanged; exact AUTH always succeeds. Tie: dictionary around the password x one/two-argument forms x 1..3 connections x all interleavings (bounded) + random histories.",
   "no TLS certificate rule (C09); the clear-text authenticator is installed by the harness the way Server.Start does"),
+ "C12": ("DESIGN.md 5.12",
+  "Theorems (unbounded): GETRANGE/SUBSTR index clamping laws for every length/start/end (in-range slice, end clamped, negative indexes, empty cases, result always an infix, missing key = empty string); ZREVRANGE = reverse-order slice for every length and all indexes (rangeSlice_reverse) with pairs intact; INCR family over the Redis-like reference store: exact result and stored value, missing key = 0, non-integers and 64-bit overflow rejected with the store unchanged; APPEND; MGET in request order with duplicates; CONFIG GET after SET returns the last stored values in request order; HKEYS/HVALS pairing, SCARD/ZCARD counts, SISMEMBER membership; PING/ECHO. Tie: real framework with a handler double replaying the Lean reference store's answers (two-pass `prep`), exhaustive GETRANGE (lengths 0..6 x -9..9) and ZREVRANGE (sizes 0..5 x -7..7, +-scores) with an independent Go oracle.",
+  "integers are what strconv.Atoi accepts; ZREVRANGEBYSCORE with LIMIT applies the limit before reversing (handler-level semantics; recorded, outside the claimed space); PING \"\" answers +PONG"),
  "C13": ("DESIGN.md 5.13",
   "Theorems (unbounded): for any number of connections, any requests, any interleaving: the connection state (database, authorization, user) seen by every handler call on connection i equals the fold of connStep over connection i's own earlier requests — independent of the schedule, other connections, handler answers and the configuration table; defaults; user commands never change it; SELECT changes the database only on success. Tie: all interleavings of two connections (bounded) + random histories over 2..8 connections, handler double probing db, authorization and per-connection user data.",
   "requests are released one at a time in the tie; truly concurrent execution is C14/C16's workload"),
@@ -36,6 +39,12 @@ CHECKS = {
  "C11": ("DESIGN.md 5.11",
   "Theorems (unbounded): every strict prefix (every byte offset) of every request (non-empty array of non-null bulks) parses to an error, never a value, also over any segmentation of the transport; a stream of complete values followed by a partial request yields exactly the trace of the complete values (same calls, same replies, once each); the connection is released. Tie: every byte offset of generated pipelines as end of stream.",
   "half-close vs full close are the same event (end of stream) for the modelled transport"),
+ "C17": ("DESIGN.md 5.17",
+  "Theorems (unbounded): the executable glob matcher decides the declarative Redis glob semantics (Matches) for every pattern and key; the compiled regular expression is exactly anchors + one token per pattern character with every non-*/? character quoted; under the token semantics it matches exactly the glob's keys; SCAN MATCH hands the handler the same expression KEYS compiles. Tie: glob.Compile/MatchString on the complete enumeration of patterns (len<=4/5) x keys (len<=3/4) over {a,b,*,?,.,+,(,|,$} and random longer ones, against an independent recursive matcher.",
+  "Go regexp trusted for three token shapes; characters are bytes in the model (ASCII in the tie)"),
+ "C18": ("DESIGN.md 5.18",
+  "Theorems (unbounded, of the reference store the example store is tied to): values byte for byte; DEL/EXISTS/RENAME (onto itself, moving, NX)/TYPE reflect the written keys; list push/pop/range order; reads do not create keys, emptied containers are removed; SADD keeps sets duplicate-free with exactly the union as members; ZADD leaves exactly one entry per member. Tie: the real example server through the hook vs the reference store, reply for reply, on all programs of length <=2/3 per data type over menus of 15..38 commands and random programs of 1..40 commands.",
+  "each key one data type, no expiry, scores from an exactly representable pool; program space of DESIGN.md Appendix B"),
  "C20": ("DESIGN.md 5.20",
   "Theorems (unbounded): for every input, server state and handler script, unless the run ends in a recovered panic, the span events of the whole connection satisfy the span discipline (depth machine: one root per request, children only under an open root, FinishSpan pops an open child, root finished once with no child open); every executor including composed ones is balanced on every returning path. Tie: recording tracer double on the library's own span context.",
   "the go-tracing common span context is used as is; runs ending in a recovered panic leave spans open (C07)"),
